@@ -996,7 +996,9 @@ func runC32() int {
 	tap := tapStdout()
 	// the json-stream carrier of the same Bulker (c32_stream.go): a small family, run first so
 	// that a time cut never drops it
-	streamCases, streamUndecodable, streamComplete := c.streamed(ctx, states["in-use"], "in-use")
+	streamCases, streamUndecodable, streamComplete := c.streamed(ctx, states["in-use"], "in-use", "json-stream")
+	textCases, textUndecodable, textComplete := c.streamed(ctx, states["in-use"], "in-use", "script-stream")
+	streamComplete = streamComplete && textComplete
 	complete := phasedFor(r, len(jobs), func(i int) int { return len(jobs[i].elems) }, func(i int) {
 		j := jobs[i]
 		solo, err := soloRun(ctx, states[j.state], j.elems, nil)
@@ -1106,6 +1108,8 @@ func runC32() int {
 		"fault_statements":    c.faultStmts.snapshot(),
 		"samples":             c.samples.List(),
 		"exhaustive":          complete,
+		"script_stream_carrier": map[string]any{"bulks_compared_with_json_carrier": textCases, "streams_with_an_undecodable_document": textUndecodable,
+			"rule": "the same two oracles through the real TEXT stream handler (…bulk+script-stream), which only carries scripted transactions: every bulk of length<=2 over 4 scripts (funding, insufficient funds, script with account metadata, spending) x {atomic, sequential} compared with the same scripts sent as a JSON array; then with an element whose header cannot be read (`//script ik=a,ik=b`) inserted at every position"},
 		"json_stream_carrier": map[string]any{"bulks_compared_with_json_carrier": streamCases, "streams_with_an_undecodable_document": streamUndecodable,
 			"rule": "every bulk of length<=2 over the 6-element core menu x {atomic, sequential} on the in-use start state, sent through the real JSON STREAM handler (…bulk+json-stream) and the same Bulker: results and ledger equal those of the same bulk sent as a JSON array; then the same bulks with a document that cannot be decoded as an element (CREATE_TRANSACTION with a timestamp that is not a date) inserted at every position: atomic => database unchanged, sequential => the ledger is that of the elements before it"},
 		"rule": "evaluation = one bulk posted through the real JSON bulk handler and Bulker over the real ledger controller stack on a clone of a pgsim start state; space = every bulk of length<=2 over the 16-element menu (create transaction by postings/script/with reference/with idempotency key, add and delete metadata on account and transaction, revert; failing elements: insufficient funds, unknown transaction, already reverted, reference conflict, invalid postings, invalid target type) plus every bulk of length 3 over the " +
